@@ -154,6 +154,20 @@ impl Resolver {
     }
 }
 
+
+// verification hook (property C06/C07): read-only view of the private source counters
+#[cfg(feature = "verif")]
+impl Resolver {
+    /// (text_code_source_count, internal_code_source_count, number of registered code sources)
+    pub fn verif_c06_counters(&self) -> (usize, usize, usize) {
+        (
+            self.text_code_source_count,
+            self.internal_code_source_count,
+            self.codesources.len(),
+        )
+    }
+}
+
 #[cfg(test)]
 mod tests {
     use crate::{
